@@ -1,12 +1,23 @@
 #!/bin/bash
-# usage: tools/run_all.sh [quick|thorough]   -- runs every claimed check, prints a summary
+# usage: tools/run_all.sh [quick|thorough] [properties...]
+# runs every claimed check (or the listed ones), prints a summary line each.
+# RUN_ALL_PAR=n runs n checks side by side (default 1).
 cd "$(dirname "$0")/.."
 TIER=${1:-quick}
-for p in $(python3 -c "import json;print(' '.join(c['property_id'] for c in json.load(open('MANIFEST.json'))['checks']))"); do
+shift
+PROPS="$@"
+if [ -z "$PROPS" ]; then
+  PROPS=$(python3 -c "import json;print(' '.join(c['property_id'] for c in json.load(open('MANIFEST.json'))['checks']))")
+fi
+one() {
+  p=$1
   s=$(date +%s)
   out=$(./vcheck $p --tier $TIER 2>&1)
   rc=$?
   e=$(date +%s)
   echo "$p rc=$rc $((e-s))s $(echo "$out" | grep -c '^VIOLATION') violation-lines $(echo "$out" | grep -c 'KNOWN-FINDING') known"
   if [ $rc -ne 0 ]; then echo "$out" | grep -E "VIOLATION|HARNESS-ERROR" | head -5; fi
-done
+}
+export -f one
+export TIER
+echo $PROPS | tr ' ' '\n' | xargs -P ${RUN_ALL_PAR:-1} -I{} bash -c 'one {}'
